@@ -145,6 +145,13 @@ SpendGrant(s, o, c, g) ==
          ELSE [s EXCEPT !.grants[g][c][t] = IF BigEq(gr, o.amt) THEN "none" ELSE BigSub(gr, o.amt)]
     ELSE s
 
+\* the Cosmos-side fields a method writes
+FieldsOf(m) == CASE m \in {"delegate", "undelegate", "redelegate", "cancelUnbonding"} -> {"deleg", "ubd"}
+                 [] m \in {"withdrawRewards", "claimRewards", "withdrawCommission"} -> {"rewards", "commission"}
+                 [] m = "setWithdrawAddress" -> {"wd"}
+                 [] m = "ibcTransfer" -> {"mods"}
+                 [] OTHER -> {}
+
 ---------------------------------------------------------------------------
 (* P: Ideal.  flags[c][slot]: 2 = that call succeeded, 1 = failed, 0 = not recorded *)
 Flag(obs, frame, o) == LET k == "s" \o ToString(o.id) IN
@@ -164,7 +171,9 @@ IdealOp(r, self, o, g, obs, operOf, topOk, root) ==
     LET s == r.st
         ok == IF self = g THEN topOk ELSE Flag(obs, self, o) = 2 IN
     CASE o.op = "pc" ->
-           IF ~ok THEN r
+           \* a call that reported failure has no effect in the ideal meaning; what it was NOT entitled to do is
+           \* remembered (fbad): if its effect is nevertheless found in the recorded state, C04 is broken as well
+           IF ~ok THEN [r EXCEPT !.fbad = @ \cup {[k |-> p, m |-> o.m, id |-> o.id] : p \in AuthProblems(s, o, Named(o.who, self), self, g)}]
            ELSE LET x == Named(o.who, self) IN
                 [r EXCEPT !.st = SpendGrant(Effect(s, o, x, self, g, operOf), o, self, g),
                           !.bad = @ \cup {[k |-> p, m |-> o.m, id |-> o.id] : p \in AuthProblems(s, o, x, self, g)}]
@@ -206,7 +215,7 @@ Ideal(e) ==
     LET g == "S"
         base == [e.pre EXCEPT !.bank = Sub(@, g, e.res.fee), !.mods = Add(@, "feecollector", e.res.fee),
                               !.nonce[g] = IF e.res.code = 0 THEN BigAdd(@, "1") ELSE @]
-        r0 == [st |-> base, bad |-> {}, dead |-> {}]
+        r0 == [st |-> base, bad |-> {}, fbad |-> {}, dead |-> {}]
     IN IF ~TxOk(e) THEN r0
        ELSE LET r1 == IdealOp(r0, g, e.top, g, e.post.storage, e.operOf, TRUE, e.top)
                 r2 == IF HasBody(e.top)
@@ -372,7 +381,15 @@ MOp(ms, self, o, g, operOf, root) ==
            LET x == Named(o.who, self)
                m0 == Load(Load(ms, self), "pc")
                m1 == Flush(m0)
-           IN IF o.m \in ApproveFamily
+           IN \* CALL with value to a precompile: the transfer is journaled; the Flush before the precompile
+              \* then mints the amount for the precompile address, cannot deliver it there (blocked address) and
+              \* fails: the coins stay in the evm module account, the call fails, the journal is rolled back
+              IF ~BigIsZero(o.value)
+              THEN (IF BigLT(m0.cache[self], o.value) THEN [ms |-> m0, ok |-> FALSE]
+                    ELSE [ms |-> IF "no_cosmos_revert" \in Defects
+                                 THEN [m0 EXCEPT !.s.mods["evm"] = BigAdd(@, o.value), !.s.supply = BigAdd(@, o.value), !.nflush = @ + 1]
+                                 ELSE m0, ok |-> FALSE])
+              ELSE IF o.m \in ApproveFamily
               THEN LET ra == MApprove(m1.s, o, self, g) IN
                    IF ra.ok THEN [ms |-> [m1 EXCEPT !.s = ra.s], ok |-> TRUE]
                    ELSE [ms |-> IF "no_cosmos_revert" \in Defects THEN [m1 EXCEPT !.s = ra.s] ELSE m0, ok |-> FALSE]
